@@ -68,11 +68,12 @@ type c09Case struct {
 	ReadBuf  int
 	SinkFail int // IntoWriter: fail after this many bytes; -1 never
 	MaxSize  int // ToByteSlice/CloneCopy limit
+	Task     bool // a succeeding background task is attached before consumption (what replicating decorators do)
 }
 
 func (cs *c09Case) String() string {
-	return fmt.Sprintf("fn=%v content=%s %s(%d) ctor=%s backend=%v cuts=%v empty=%v errAt=%d eofmix=%v cons=%s off=%d maxChunk=%d readBuf=%d sinkFail=%d maxSize=%d",
-		cs.Fn, short(cs.Content), mmNames[cs.Mismatch], cs.MMArg, ctorNames[cs.Ctor], cs.Backend, cs.Cuts, cs.Empty, cs.ErrAt, cs.EOFMix, consNames[cs.Cons], cs.Off, cs.MaxChunk, cs.ReadBuf, cs.SinkFail, cs.MaxSize)
+	return fmt.Sprintf("fn=%v content=%s %s(%d) ctor=%s backend=%v cuts=%v empty=%v errAt=%d eofmix=%v cons=%s off=%d maxChunk=%d readBuf=%d sinkFail=%d maxSize=%d task=%v",
+		cs.Fn, short(cs.Content), mmNames[cs.Mismatch], cs.MMArg, ctorNames[cs.Ctor], cs.Backend, cs.Cuts, cs.Empty, cs.ErrAt, cs.EOFMix, consNames[cs.Cons], cs.Off, cs.MaxChunk, cs.ReadBuf, cs.SinkFail, cs.MaxSize, cs.Task)
 }
 
 // delivered returns the bytes the source will present.
@@ -320,6 +321,11 @@ func runC09Case(c *sim.RunCtx, cs *c09Case) {
 				c.Fail("size-report", "GetSizeBytes() = %d, %v; digest says %d [%s]", n, err, size, cs)
 			}
 		}
+		if cs.Task {
+			// the wrapper must not weaken anything: a task that succeeds changes no outcome
+			b = b.WithTask(func() error { rt.Yield("task"); return nil })
+			c.Count("probe_with_succeeding_task", 1)
+		}
 		res = consume(b, cs.Cons, cs.Off, cs.MaxChunk, cs.ReadBuf, cs.SinkFail, cs.MaxSize, size)
 	})
 	if c.Failed() {
@@ -521,6 +527,7 @@ func drawC09Case(t *sim.Tape) *c09Case {
 	if t.Chance(1, 10) {
 		cs.MaxSize = t.Choose(n + 2)
 	}
+	cs.Task = t.Chance(1, 5)
 	return cs
 }
 
